@@ -87,9 +87,7 @@ Inductive qcls := QGeneric | QMySQL | QPostgres | QMSSQL.
 
 (* a stored join: its item and, for JoinOn, criterion.tables_ (the Table instances of its fields);
    JoinUsing / Join have no .criterion attribute *)
-Record jrec := mkJ { j_item : tbl; j_crit : option (list ptab); j_alq : list tbl; j_alq_hid : list tbl }.
-(* j_alq_hid: AliasedQuery references of the criterion that sit in operands nodes_ does not visit (not an attribute of
-   the implementation, which cannot see them: kept so that the specification can speak about them) *)
+Record jrec := mkJ { j_item : tbl; j_crit : option (list ptab); j_alq : list tbl }.
 (* j_alq: the AliasedQuery objects among the tables of the criterion's fields (JoinOn.validate_with) *)
 
 Record qst := mkQ {
@@ -156,35 +154,19 @@ Inductive ufield := UStr | UField | UOther.
 (* a field as the guards see it: its table (or None) and its name *)
 Definition jfield := (tref * string)%type.
 (* a join criterion, by the operand structure of the term classes.  JoinOn.validate / validate_with see it only through
-   Term.find_ = nodes_; the last constructor stands for the classes whose nodes_ leaves operands out (gen/C14Table.v
-   nodes_coverage, expected_nodes_coverage below): Negative.term, AtTimezone.field, the PARTITION BY / ORDER BY /
-   FILTER parts of aggregate and analytic functions *)
+   Term.find_ = nodes_; since d11365b nodes_ descends into every operand that holds a term of the statement (gen/C14Table.v
+   nodes_coverage, expected_nodes_gaps below): also -x, x AT TIME ZONE, FILTER(WHERE ..), OVER(PARTITION BY .. ORDER BY ..) *)
 Inductive jterm :=
 | JF (f : jfield)                                  (* Field *)
 | JConst                                           (* ValueWrapper / anything without fields *)
 | JBin (l r : jterm)                               (* BasicCriterion, ComplexCriterion, ArithmeticExpression, BitwiseAndCriterion *)
 | JTri (t lo hi : jterm)                           (* RangeCriterion (BETWEEN, field[lo:hi], PERIOD), NestedCriterion *)
 | JIn (t : jterm) (items : list jterm)             (* ContainsCriterion over a Tuple *)
-| JUn (t : jterm)                                  (* NullCriterion, NotNullCriterion, Not, All *)
-| JFn (args : list jterm)                          (* Function *)
-| JCase (whens : list (jterm * jterm)) (els : option jterm)
-| JHid (vis hid : list jterm).                     (* operands nodes_ visits / does not visit *)
+| JUn (t : jterm)                                  (* NullCriterion, NotNullCriterion, Not, All, Negative, AtTimezone *)
+| JFn (args : list jterm)                          (* Function: arguments, FILTER criteria, PARTITION BY / ORDER BY terms *)
+| JCase (whens : list (jterm * jterm)) (els : option jterm).
 
-Fixpoint jall (c : jterm) : list jfield :=          (* every field of the criterion *)
-  match c with
-  | JF f => [f]
-  | JConst => []
-  | JBin l r => jall l ++ jall r
-  | JTri t lo hi => jall t ++ jall lo ++ jall hi
-  | JIn t items => jall t ++ flat_map jall items
-  | JUn t => jall t
-  | JFn args => flat_map jall args
-  | JCase whens els =>
-      (fix go (l : list (jterm * jterm)) := match l with [] => [] | (w, t) :: r => jall w ++ jall t ++ go r end) whens
-      ++ match els with Some e => jall e | None => [] end
-  | JHid vis hid => flat_map jall vis ++ flat_map jall hid
-  end.
-Fixpoint jvis (c : jterm) : list jfield :=          (* find_(Field): what nodes_ reaches *)
+Fixpoint jvis (c : jterm) : list jfield :=          (* find_(Field): every field of the criterion, in every operand *)
   match c with
   | JF f => [f]
   | JConst => []
@@ -196,21 +178,6 @@ Fixpoint jvis (c : jterm) : list jfield :=          (* find_(Field): what nodes_
   | JCase whens els =>
       (fix go (l : list (jterm * jterm)) := match l with [] => [] | (w, t) :: r => jvis w ++ jvis t ++ go r end) whens
       ++ match els with Some e => jvis e | None => [] end
-  | JHid vis _ => flat_map jvis vis
-  end.
-Fixpoint jhid (c : jterm) : list jfield :=          (* the fields below an operand nodes_ does not visit *)
-  match c with
-  | JF _ => []
-  | JConst => []
-  | JBin l r => jhid l ++ jhid r
-  | JTri t lo hi => jhid t ++ jhid lo ++ jhid hi
-  | JIn t items => jhid t ++ flat_map jhid items
-  | JUn t => jhid t
-  | JFn args => flat_map jhid args
-  | JCase whens els =>
-      (fix go (l : list (jterm * jterm)) := match l with [] => [] | (w, t) :: r => jhid w ++ jhid t ++ go r end) whens
-      ++ match els with Some e => jhid e | None => [] end
-  | JHid vis hid => flat_map jhid vis ++ flat_map jall hid
   end.
 Fixpoint jmap (g : tref -> tref) (c : jterm) : jterm :=
   match c with
@@ -224,7 +191,6 @@ Fixpoint jmap (g : tref -> tref) (c : jterm) : jterm :=
   | JCase whens els =>
       JCase ((fix go (l : list (jterm * jterm)) := match l with [] => [] | (w, t) :: r => (jmap g w, jmap g t) :: go r end) whens)
             (match els with Some e => Some (jmap g e) | None => None end)
-  | JHid vis hid => JHid (map (jmap g) vis) (map (jmap g) hid)
   end.
 (* (l1 == r1) & (l2 == r2) & ... *)
 Fixpoint crit_of_pairs (l : list (jfield * jfield)) : jterm :=
@@ -290,9 +256,7 @@ Definition base_tables (s : qst) : list tref :=
 
 Definition table_name (t : tbl) : string :=
   match t with TTab p => match pt_alias p with Some a => a | None => pt_name p end | TAlq n => n | TSub a _ _ => ostr a end.
-Definition crit_vis_tables (crit : jterm) : list tref := map fst (jvis crit).
-Definition crit_hid_tables (crit : jterm) : list tref := map fst (jhid crit).
-Definition crit_all_tables (crit : jterm) : list tref := crit_vis_tables crit ++ crit_hid_tables crit.
+Definition crit_all_tables (crit : jterm) : list tref := map fst (jvis crit).
 
 Definition is_alq_ref (t : tref) : bool := match t with Some (TAlq _) => true | _ => false end.
 Fixpoint alqs_of (l : list tref) : list tbl :=
@@ -321,7 +285,7 @@ Fixpoint first_free (name : string) (taken : list string) (n fuel : nat) : nat :
   end.
 (* [crit it]: the tables of the criterion's fields once the item carries its final name [it] -- on_field builds its
    criterion from the item object itself, so criterion.tables_ later shows the numbered alias written here *)
-Definition do_join (s : qst) (item : tbl) (crit : tbl -> option (list tref)) (hid : list tref) : qst :=
+Definition do_join (s : qst) (item : tbl) (crit : tbl -> option (list tref)) : qst :=
   let base := base_tables s in
   let table_in_query :=
       existsb (fun clause => match clause with Some (TTab _) => mem (Some item) base | _ => false end) base in
@@ -335,7 +299,7 @@ Definition do_join (s : qst) (item : tbl) (crit : tbl -> option (list tref)) (hi
                   else item
       | _ => item
       end in
-  set_joins s (q_joins s ++ [mkJ item' (option_map ptabs_of (crit item')) (alqs_of (odefault [] (crit item'))) (alqs_of hid)]).
+  set_joins s (q_joins s ++ [mkJ item' (option_map ptabs_of (crit item')) (alqs_of (odefault [] (crit item')))]).
 
 (* a sub-query that has no alias yet is named "sq<_subquery_count>" by from_() / join() (written onto the object) *)
 Definition untagged (t : tbl) : bool := match t with TSub None _ _ => true | _ => false end.
@@ -358,8 +322,8 @@ Definition join_step (s : qst) (item0 : tbl) (h : joinhow) : res qst :=
   | JOn None => Err JoinExc                                  (* if criterion is None: raise *)
   | JOn (Some crit0) =>
       let crit := retag_crit item0 item crit0 in
-      (* the guards see the criterion through find_(Field) / tables_: the fields nodes_ reaches *)
-      if validate_on s item (crit_vis_tables crit) then Ok (do_join s1 item (fun _ => Some (crit_vis_tables crit)) (crit_hid_tables crit))
+      (* the guards see the criterion through find_(Field) / tables_ *)
+      if validate_on s item (crit_all_tables crit) then Ok (do_join s1 item (fun _ => Some (crit_all_tables crit)))
       else Err JoinExc
   | JOnField n =>
       if Nat.eqb n 0 then Err JoinExc                        (* if not fields: raise *)
@@ -367,10 +331,10 @@ Definition join_step (s : qst) (item0 : tbl) (h : joinhow) : res qst :=
            | [] => Err IndexErr                              (* self.query._from[0] *)
            | f0 :: _ =>
                let crit := [Some f0; Some item] in
-               if validate_on s item crit then Ok (do_join s1 item (fun it => Some [Some f0; Some it]) []) else Err JoinExc
+               if validate_on s item crit then Ok (do_join s1 item (fun it => Some [Some f0; Some it])) else Err JoinExc
            end
-  | JUsing n => if Nat.eqb n 0 then Err JoinExc else Ok (do_join s1 item (fun _ => None) [])
-  | JCross => Ok (do_join s1 item (fun _ => None) [])
+  | JUsing n => if Nat.eqb n 0 then Err JoinExc else Ok (do_join s1 item (fun _ => None))
+  | JCross => Ok (do_join s1 item (fun _ => None))
   end.
 
 (* ---- PostgreSQL returning ---- *)
@@ -603,12 +567,7 @@ Definition is_statement (s : qst) : bool :=
 Definition refers_unknown_with (s : qst) : bool :=
   existsb (fun j => existsb (fun a => negb (existsb (tbl_eqb a) (q_with s))
                                       && negb (existsb (tbl_eqb a) (q_from s))
-                                      && negb (existsb (fun j' => tbl_eqb a (j_item j')) (q_joins s))) (j_alq j ++ j_alq_hid j)) (q_joins s).
-Definition hidden_unknown_with (s : qst) : bool :=
-  existsb (fun j => existsb (fun a => negb (existsb (tbl_eqb a) (q_with s))
-                                      && negb (existsb (tbl_eqb a) (q_from s))
-                                      && negb (existsb (fun j' => tbl_eqb a (j_item j')) (q_joins s))) (j_alq_hid j)) (q_joins s).
-
+                                      && negb (existsb (fun j' => tbl_eqb a (j_item j')) (q_joins s))) (j_alq j)) (q_joins s).
 (* RETURNING: fields and strings after a '*' are dropped (like select), so only the effective terms count *)
 Fixpoint effective (star : bool) (ts : list rterm) : list rterm :=
   match ts with
@@ -670,11 +629,10 @@ Definition guards_q : list (guard qx) := [
   ("mssql_top_percent", (fun x => match x with (_, QTop v true) => is_integer_value v && negb (Z.leb 0 (top_value v) && Z.leb (top_value v) 100) | _ => false end), QueryExc)
 ].
 
-(* the situations in which the code is known to deviate from the documentation:
-   C14-join-subquery-same-alias-same-from: the criterion names a sub-query that is none of the statement's sources but
-     carries the alias AND selects from the table of one that is (the set arithmetic cannot tell them apart);
-   C14-join-operand-invisible-to-nodes: the foreign table (or the undefined WITH query) is named by a field inside an
-     operand that nodes_ does not visit (-x, x AT TIME ZONE, OVER(PARTITION BY / ORDER BY ...), FILTER(WHERE ...)) *)
+(* the one situation in which the code is known to deviate from the documentation (finding
+   C14-join-subquery-same-alias-same-from): the criterion names a sub-query that is none of the statement's sources
+   but carries the alias AND selects from the table of one that is -- the set arithmetic of JoinOn.validate cannot
+   tell them apart *)
 Definition frag_q (s : qst) (c : qcall) : bool :=
   match c with
   | QJoin item (JOn (Some crit)) =>
@@ -683,8 +641,6 @@ Definition frag_q (s : qst) (c : qcall) : bool :=
                         | Some t => forallb (fun u => negb (tbl_eqb t u) || tbl_ident t u) (sources s item')
                         | None => true
                         end) (crit_all_tables (retag_crit item item' crit))
-      && negb (existsb (foreign_ref s item') (crit_hid_tables (retag_crit item item' crit)))
-  | QRender => negb (is_statement s && hidden_unknown_with s)
   | _ => true
   end.
 
@@ -1009,15 +965,11 @@ Definition nodes_gaps (t : list (string * list string * list string)) : list (st
                      | [] => []
                      | g => [(fst (fst r), g)]
                      end) t.
-(* the gaps of the current sources.  Seen by the join guards (finding C14-join-operand-invisible-to-nodes, JHid in the
-   model): Negative.term, AtTimezone.field, _filters / _orderbys / _partition of aggregate and analytic functions.
-   No terms of the enclosing statement: ValueWrapper.value (a Python value), Values.field, Function.schema (a Schema),
-   ExistsCriterion.container (a sub-query: "subqueries have their own fields"). *)
+(* the gaps of the current sources (after d11365b), none of which holds a term of the enclosing statement:
+   Function.schema and its subclasses' (a Schema object, no term), ExistsCriterion.container (a sub-query: "subqueries
+   have their own fields"), Values.field (MySQL VALUES(col): a column of the row being inserted) *)
 Definition expected_nodes_gaps : list (string * list string) := [
-  ("Negative", ["term"]); ("ValueWrapper", ["value"]); ("ParameterValueWrapper", ["value"]); ("Values", ["field"]);
-  ("ExistsCriterion", ["container"]); ("Function", ["schema"]); ("AggregateFunction", ["_filters"; "schema"]);
-  ("AnalyticFunction", ["_filters"; "_orderbys"; "_partition"; "schema"]);
-  ("WindowFrameAnalyticFunction", ["_filters"; "_orderbys"; "_partition"; "schema"]);
-  ("IgnoreNullsAnalyticFunction", ["_filters"; "_orderbys"; "_partition"; "schema"]);
-  ("Pow", ["schema"]); ("Mod", ["schema"]); ("Rollup", ["schema"]); ("AtTimezone", ["field"])
+  ("Values", ["field"]); ("ExistsCriterion", ["container"]); ("Function", ["schema"]); ("AggregateFunction", ["schema"]);
+  ("AnalyticFunction", ["schema"]); ("WindowFrameAnalyticFunction", ["schema"]); ("IgnoreNullsAnalyticFunction", ["schema"]);
+  ("Pow", ["schema"]); ("Mod", ["schema"]); ("Rollup", ["schema"])
 ].
